@@ -1,5 +1,6 @@
 /* C05: h_skip */
 #include "harness/C05/common.h"
+#include "x_json_rd.c"      /* eof / where / size / go: real bodies */
 #include "x_json_skip.c"
 
 void h_skip(void) { StringReader* r; bool in_de; IN_COMMON; g_j.de = in_de; int in_wc0, in_wc1; g_w.c0 = in_wc0; g_w.c1 = in_wc1; skip_whitespace_and_comments(r, in_de); VERIF_REACH(); }
